@@ -1,7 +1,9 @@
 (* ConvergeCounter.v — the statement of catch_up_converges with the conclusion `follower_ok (v_term sL) sF'`
    is false even with log_matching_premise: the last clause of follower_ok (v_applied <= v_lastLogIdx)
-   is not preserved when a conflict truncates the follower's log below its lastApplied, or when the
-   leader's commit index exceeds n and the follower's log is longer than n. *)
+   is not preserved when a conflict truncates the follower's log below its lastApplied.
+   (Before the fix: commit of appendEntries' commit rule - commitIndex <= index of the last entry of
+   the accepted request - a leader commit index above n against a follower log longer than n broke it
+   too, even for a follower that had applied nothing: counterexample B below no longer does.) *)
 From Coq Require Import List NArith Bool Lia.
 From stdpp Require Import gmap.
 From RaftModel Require Import Base Config Compaction Commitment Node NodeCodec Leader Replicate Converge.
@@ -18,10 +20,8 @@ Definition cx_L := [mkE 1 1 0 101; mkE 2 1 0 102; mkE 3 2 0 203; mkE 4 3 0 304; 
 (* follower: 7 entries of term 1 (agrees with the leader on 1..2: log matching holds) *)
 Definition cx_F := [mkE 1 1 0 101; mkE 2 1 0 102; mkE 3 1 0 103; mkE 4 1 0 104; mkE 5 1 0 105; mkE 6 1 0 106; mkE 7 1 0 107].
 
-(* Counterexample A: the follower has applied 1..7 (a heartbeat with commit = 7 in term 3) *)
-Definition cx_sF_A : nstate :=
-  match append_entries cx_P2 (cx_mkst 3 cx_F) [] (mkAReq 3 9 9 0 0 [] 7) with
-  | Done s _ _ _ => s | Panic s _ => s end.
+(* Counterexample A: the follower has applied 1..7 *)
+Definition cx_sF_A : nstate := set_applied (cx_mkst 3 cx_F) 7 [].
 Definition cx_view (s : nstate) :=
   (v_term s, v_role s, v_lastLogIdx s, v_lastLogTerm s, v_lastSnapIdx s, v_applied s,
    map (fun e => (e_idx e, e_term e)) (sorted_log (d_log s))).
@@ -31,7 +31,8 @@ Eval vm_compute in match cx_resA with
   | Some (rs, sF, k) => Some (r_next rs, r_match rs, k, cx_view sF, v_applied sF <=? v_lastLogIdx sF)
   | None => None end.
 
-(* Counterexample B: fresh follower (lastApplied = 0), but the leader's commit index is 7 > n *)
+(* B (a counterexample before the fix: commit only): fresh follower (lastApplied = 0), the leader's commit index is 7 > n:
+   the follower now ends with lastApplied = 5 = lastIndex *)
 Definition cx_L_B := [mkE 1 1 0 101; mkE 2 1 0 102; mkE 3 1 0 103; mkE 4 3 0 304; mkE 5 3 0 305].
 Definition cx_resB := cu_run (N.to_nat (2 + 5) + 1) cx_P1 cx_P2 (set_commit (cx_mkst 3 cx_L_B) 7) (mkRS 2 0 0) (cx_mkst 3 cx_F) 5.
 Eval vm_compute in cx_view (cx_mkst 3 cx_F).
@@ -39,11 +40,11 @@ Eval vm_compute in match cx_resB with
   | Some (rs, sF, k) => Some (r_next rs, r_match rs, k, cx_view sF, v_applied sF <=? v_lastLogIdx sF)
   | None => None end.
 
-(* ---------------------------------------------------------------- formal refutation (counterexample B) *)
+(* ---------------------------------------------------------------- formal refutation (counterexample A) *)
 From RaftProofs Require Import AppendProofs ReplicateProofs ConvergeFollower.
 
 Definition cx_sL := set_commit (cx_mkst 3 cx_L_B) 7.
-Definition cx_sF := cx_mkst 3 cx_F.
+Definition cx_sF := cx_sF_A.
 
 Lemma log_wf_empty : log_wf ∅ 0.
 Proof.
